@@ -1,6 +1,7 @@
 package props
 
 import (
+	"errors"
 	"encoding/json"
 	"fmt"
 	"io"
@@ -395,8 +396,55 @@ func c15EmptyObject(c *core.Ctx) bool {
 	return true
 }
 
+// c15Bodies2: the JSON source is the body the request carries when it is parsed - not the payload it was built with (requests made
+// with http.NewRequest from a strings reader can replay that), and a body is read before it is closed (bodies of real server requests
+// refuse reads after Close).
+type c15StrictBody struct {
+	r      *strings.Reader
+	closed bool
+}
+
+func (b *c15StrictBody) Read(p []byte) (int, error) {
+	if b.closed {
+		return 0, errors.New("http: read on closed response body")
+	}
+	return b.r.Read(p)
+}
+func (b *c15StrictBody) Close() error { b.closed = true; return nil }
+
+func c15Bodies2(c *core.Ctx) bool {
+	type rec struct {
+		Src string `json:"src"`
+	}
+	sch := func() *z.StructSchema { return z.Struct(z.Schema{"src": z.String().Required()}) }
+	r1, _ := http.NewRequest("POST", "/x", strings.NewReader(`{"src":"original payload"}`))
+	r1.Header.Set("Content-Type", "application/json")
+	r1.Body = io.NopCloser(strings.NewReader(`{"src":`)) // a middleware replaced the body (here: truncated it)
+	var d1 rec
+	m1 := sch().Parse(zhttp.Request(r1), &d1)
+	r2, _ := http.NewRequest("POST", "/x", strings.NewReader(`{"src":"original payload"}`))
+	r2.Header.Set("Content-Type", "application/json")
+	r2.Body = io.NopCloser(strings.NewReader(`{"src":"replaced"}`))
+	var d2 rec
+	m2 := sch().Parse(zhttp.Request(r2), &d2)
+	r3, _ := http.NewRequest("POST", "/x", nil)
+	r3.Header.Set("Content-Type", "application/json")
+	r3.Body = &c15StrictBody{r: strings.NewReader(`{"src":"strict"}`)}
+	var d3 rec
+	m3 := sch().Parse(zhttp.Request(r3), &d3)
+	c.Eval(3)
+	if len(m1["$root"]) != 1 || m1["$root"][0].Code != "invalid_json" || d1.Src != "" || len(m2) != 0 || d2.Src != "replaced" || len(m3) != 0 || d3.Src != "strict" {
+		c.Violation("wrong-source-or-presentation|json-body-of-the-request", map[string]any{"truncated replacement body": fmt.Sprintf("%v %+v", z.Issues.SanitizeMap(m1), d1), "valid replacement body": fmt.Sprintf("%v %+v", z.Issues.SanitizeMap(m2), d2), "body that refuses reads after Close": fmt.Sprintf("%v %+v", z.Issues.SanitizeMap(m3), d3), "want": "one invalid_json at $root and an untouched destination / {Src:replaced} / {Src:strict}"})
+		return false
+	}
+	return true
+}
+
 func (c15) RunCase(c *core.Ctx) {
 	if c.Case%400 == 5 && !c15EmptyObject(c) {
+		return
+	}
+	if c.Case%400 == 6 && !c15Bodies2(c) {
 		return
 	}
 	n := c15Schema()
